@@ -54,7 +54,7 @@ def scheme_rules(ctx):
 
 def C01(ctx):
     ctx.only = ("K1.", "K4.reclaim-after-unlink", "HP.protocol", "HP.active-gather", "HP.delete-licensed", "HP.validate-after-protect",
-                "HE.protocol", "HE.active-gather", "HE.delete-licensed", "HE.era-after-load", "HE.exception-safety", "HE.retire",
+                "HE.protocol", "HE.active-gather", "HE.delete-licensed", "HE.era-after-load", "HE.exception-safety", "HE.retire", "HE.shared-slot",
                 "EBR.protocol", "EBR.orphans", "EBR.constants", "EBR.activity", "QSBR.protocol", "QSBR.constants", "QSBR.activity",
                 "STAMP.protocol", "STAMP.delete-licensed", "LFRC.")
     k1_rules(ctx, "C01")
@@ -205,7 +205,7 @@ def C17(ctx):
 
 
 def C18(ctx):
-    ctx.only = ("K1.", "HP.slots", "HE.slots", "HE.exception-safety", "HP.block-init", "HE.block-init")
+    ctx.only = ("K1.", "HP.slots", "HE.slots", "HE.exception-safety", "HE.shared-slot", "HP.block-init", "HE.block-init")
     k1_rules(ctx, "C18")
     scheme_rules(ctx)
     ctx.only = ctx.only + ("K3.", "K13.")
@@ -238,6 +238,8 @@ def C15(ctx):
     k1_rules(ctx, "C15")
     markedptr.rules(ctx)
     typestate.rules(ctx)
+    ctx.only = ("K1.", "K7.", "K3.", "K13.", "HE.shared-slot")
+    schemes.hazard_eras_rules(ctx)
     return ("Decides: marked_ptr round trip bit by bit for every mark width 1..32 and three upper/lower splits (abstract interpretation of the -O1 IR), "
             "concurrent_ptr order pass-through (frozen as param:order in the contract table); guard_ptr typestate for all six schemes and all special members, "
             "acquire, acquire_if_equal, reset, reclaim by path-sensitive abstract interpretation with symbolic nullness (protection units taken == change "
